@@ -396,13 +396,29 @@ class SymExec:
             return cond_xor(c, self.ev(e.body, env), self.ev(e.orelse, env))
         if isinstance(e, ast.Subscript):
             base = self.ev(e.value, env)
+            if isinstance(base, list) and isinstance(e.slice, ast.Slice):
+                lo = self.ev(e.slice.lower, env) if e.slice.lower is not None else None
+                hi = self.ev(e.slice.upper, env) if e.slice.upper is not None else None
+                if any(x is not None and not (isinstance(x, BV) and x.is_const()) for x in (lo, hi)) or e.slice.step is not None:
+                    raise Top("slice with symbolic bounds")
+                return base[(lo.value() if lo is not None else None):(hi.value() if hi is not None else None)]
             if isinstance(base, list):
+                ci = self.int_of(e.slice, env)
+                if ci is not None:
+                    try:
+                        x = base[ci]
+                        return x if isinstance(x, BV) else BV.const(x)
+                    except IndexError:
+                        raise Top("constant index outside table")
                 idx = self.ev(e.slice, env)
                 if idx.is_const():
                     try:
-                        return BV.const(base[idx.value()])
+                        x = base[idx.value()]
+                        return x if isinstance(x, BV) else BV.const(x)
                     except IndexError:
                         raise Top("constant index outside table")
+                if any(isinstance(x, BV) for x in base):
+                    raise Top("symbolic index into a symbolic sequence")
                 if not table_linear(base):
                     raise Top("table is not GF(2)-linear")
                 return lookup_linear(base, idx)
@@ -413,6 +429,32 @@ class SymExec:
         if isinstance(e, ast.Call):
             return self.call(e, env)
         raise Top(f"expression {type(e).__name__}")
+
+    def int_of(self, e, env):
+        """concrete (possibly negative) integer value of an index / range-bound expression, or None"""
+        if isinstance(e, ast.Constant) and isinstance(e.value, int) and not isinstance(e.value, bool):
+            return e.value
+        if isinstance(e, ast.UnaryOp) and isinstance(e.op, ast.USub):
+            v = self.int_of(e.operand, env)
+            return None if v is None else -v
+        if isinstance(e, ast.BinOp) and isinstance(e.op, (ast.Add, ast.Sub, ast.Mult, ast.FloorDiv, ast.Mod)):
+            a, b = self.int_of(e.left, env), self.int_of(e.right, env)
+            if a is None or b is None or (isinstance(e.op, (ast.FloorDiv, ast.Mod)) and b == 0):
+                return None
+            return {ast.Add: a + b, ast.Sub: a - b, ast.Mult: a * b, ast.FloorDiv: a // b if b else 0, ast.Mod: a % b if b else 0}[type(e.op)]
+        if isinstance(e, ast.Call) and isinstance(e.func, ast.Name) and e.func.id == "len" and len(e.args) == 1:
+            try:
+                v = self.ev(e.args[0], env)
+            except Top:
+                return None
+            return len(v) if isinstance(v, list) else None
+        try:
+            v = self.ev(e, env)
+        except Top:
+            return None
+        if isinstance(v, BV) and v.is_const():
+            return v.value()
+        return None
 
     def lift(self, c, what):
         if isinstance(c, bool) or c is None:
@@ -510,20 +552,40 @@ class SymExec:
             return None
         if isinstance(s, ast.For):
             it = s.iter
-            n = None
-            if isinstance(it, ast.Call) and isinstance(it.func, ast.Name) and it.func.id == "range" and len(it.args) == 1:
-                c = self.ev(it.args[0], env)
-                if isinstance(c, BV) and c.is_const():
-                    n = c.value()
-            if n is None or n > 64 or s.orelse:
+            seq = None
+            if isinstance(it, ast.Call) and isinstance(it.func, ast.Name) and it.func.id == "range" and 1 <= len(it.args) <= 3:
+                cs = [self.int_of(a, env) for a in it.args]
+                if all(c is not None for c in cs) and (len(cs) < 3 or cs[2] != 0):
+                    r_ = range(*cs)
+                    if len(r_) <= 64 and all(k >= 0 for k in r_):
+                        seq = [BV.const(k) for k in r_]
+            else:
+                try:
+                    v = self.ev(it, env)
+                except Top:
+                    v = None
+                if isinstance(v, list) and len(v) <= 64:
+                    seq = [x if isinstance(x, BV) else BV.const(x) for x in v]
+            if seq is None or s.orelse:
                 raise Top("loop is not a small constant range")
-            for k in range(n):
+            for k in seq:
                 if isinstance(s.target, ast.Name):
-                    env[s.target.id] = BV.const(k)
+                    env[s.target.id] = k
                 r = self.run_body(s.body, env)
                 if r is not None:
                     raise Top("return inside loop")
             return None
+        if isinstance(s, ast.While):
+            for _ in range(65):
+                c = self.cond_bit(s.test, env)
+                if c == 0:
+                    return None
+                if c != 1:
+                    raise Top("while condition on a symbolic bit")
+                r = self.run_body(s.body, env)
+                if r is not None:
+                    raise Top("return inside loop")
+            raise Top("while loop does not end within 64 iterations")
         if isinstance(s, ast.If):
             c = self.cond_bit(s.test, env)
             if c == 1:
